@@ -40,7 +40,7 @@ m = {
         {"name": "E-seq", "path": "harness/core.hpp", "kind_free_text": "in-process rapidcheck (choice tape -> operation history) against a reference model", "serves_properties": sorted(p for p, v in PROPS.items() if any(t.get("engine") == "E-seq" for t in v["targets"]))},
         {"name": "E-vt", "path": "harness/vt.hpp", "kind_free_text": "deterministic virtual threads: OS threads + baton, custom pika agent, schedule = generated tape; exact deadlock detection", "serves_properties": sorted(p for p, v in PROPS.items() if any(t.get("engine") == "E-vt" for t in v["targets"]))},
         {"name": "E-proc", "path": "harness/proc.hpp", "kind_free_text": "one process per generated configuration (env, argv, synthetic hwloc topology), live runtime dumps what it uses, parent compares with a reference model", "serves_properties": sorted(p for p, v in PROPS.items() if any(t.get("engine") == "E-proc" for t in v["targets"]))},
-        {"name": "E-stress", "path": "props/C17_queues_stress.cpp", "kind_free_text": "generated thread mixes on free-running std::threads (no baton, optional CPU oversubscription), multiset ledger oracle: samples real x86 interleavings and preemption", "serves_properties": sorted(p for p, v in PROPS.items() if any(t.get("engine") == "E-stress" for t in v["targets"]))},
+        {"name": "E-stress", "path": "props/C17_queues_stress.cpp", "kind_free_text": "generated thread mixes on free-running std::threads (no baton, no runtime, pika's real default execution agent; optional CPU oversubscription); per-round protocols that aim the racing calls at each other with generated, swept skews; shadow-state / ledger oracles and a no-progress monitor: samples real x86 interleavings and preemption (C17 containers, C03 adaptor hand-offs, C07-C09 primitives from plain OS threads)", "serves_properties": sorted(p for p, v in PROPS.items() if any(t.get("engine") == "E-stress" for t in v["targets"]))},
         {"name": "E-fuzz", "path": "fuzz/", "kind_free_text": "libFuzzer + ASan/UBSan byte-level targets with semantic oracles inside the target", "serves_properties": sorted(p for p, v in PROPS.items() if any(t.get("engine") == "E-fuzz" for t in v["targets"]))},
     ],
     "checks": checks,
